@@ -870,7 +870,7 @@ theorem run_balance_perm (c : Cfg) (s : State) (toks : List Tok) :
   rw [List.count_append]
   exact run_bal z c toks s
 
-theorem alloc_release_balance (c : Cfg) (oracle : Nat → Bool) (toks : List Tok) :
+theorem alloc_release_balance (c : Cfg) (oracle : Nat → LockAns) (toks : List Tok) :
     (runReleases c (State.init oracle) toks).Perm (runAllocs c (State.init oracle) toks) := by
   have := run_balance_perm c (State.init oracle) toks
   simpa [State.init, capsOf] using this
@@ -898,10 +898,11 @@ theorem pagesA_append (P : Nat) (A B : List Nat) : pagesA P (A ++ B) = pagesA P 
   unfold dryocMlock failedLock
   split
   · rfl
-  · split
-    · simp only []; split
+  · simp only []; split
+    · split
       · simp
       · simp only []; split <;> simp
+    · simp only []; split <;> simp
     · simp only []; split <;> simp
 
 @[simp] theorem vecDrop_brk (c : Cfg) (m : Mach) (v : PVec) : (vecDrop c m v).k.brk = m.k.brk := by
